@@ -204,13 +204,13 @@ theorem deliver_eff (env : Env) (w : World) (m : Msg) :
         w'.bufferAt = trimAt (w.bufferAt ++ [(m', w.lastSlot)]) ∧ w'.buffer = trim1000 (w.buffer ++ [m']))) := by
   intro m' w'
   by_cases ha : w.anyAdded = true
-  · have f := fanOut_eff env m' w.dests { w with stage := w.stage ++ [m'] }
-    have e : w' = { (World.fanOut env { w with stage := w.stage ++ [m'] } m' w.dests).1 with lastSlot := none } := by
+  · have f := fanOut_eff env m' w.dests { w with stage := w.stage ++ [m'], stageAt := w.stageAt ++ [w.dests] }
+    have e : w' = { (World.fanOut env { w with stage := w.stage ++ [m'], stageAt := w.stageAt ++ [w.dests] } m' w.dests).1 with lastSlot := none } := by
       simp only [w', World.deliver, ha, if_true]; rfl
     rw [e]
     exact ⟨rfl, f.pendingAt, f.slots, f.dests, f.dupAdd, f.acts, f.globals, Or.inl ⟨f.offeredAt, f.offered, f.bufferAt, f.buffer⟩⟩
   · have e : w' =
-        { w with stage := w.stage ++ [m'], buffer := trim1000 (w.buffer ++ [m']),
+        { w with stage := w.stage ++ [m'], stageAt := w.stageAt ++ [w.dests], buffer := trim1000 (w.buffer ++ [m']),
                  bufferAt := trimAt (w.bufferAt ++ [(m', w.lastSlot)]), lastSlot := none } := by
       simp only [w', World.deliver, ha]; rfl
     rw [e]
